@@ -124,12 +124,16 @@ class SuperNetCombiner(nn.Module):
         :return: a dictionary containing the optimized layer hyperparameter values
         :rtype: Dict[str, Any]
         """
+        # sampling overwrites the coefficients used by forward and cost (with new Gumbel noise, if
+        # enabled): a summary must not change them, so they are restored afterwards
+        theta_alpha = self.theta_alpha
         with torch.no_grad():
             self.sample_alpha()
         res = {"supernet_branches": {}}
         for i in range(self.n_branches):
             res["supernet_branches"][f"branch_{i}"] = {}
             res["supernet_branches"][f"branch_{i}"]['alpha'] = self.theta_alpha[i].item()
+        self.theta_alpha = theta_alpha
         return res
 
     @property
